@@ -3,6 +3,7 @@
 -/
 import YV.Proofs.XRun
 import YV.Proofs.XTotal
+import YV.Proofs.XBytes
 namespace YV.C05
 open YV YV.X YV.XP YV.XM YV.XL
 
@@ -49,6 +50,17 @@ theorem C05_build_total (strict fixed : Bool) (g : Grammar) (pm : PfxMap) (bs : 
     · generalize (Int.ofNat bs.length - Int.ofNat _ : Int) = mark
       by_cases hm : mark < 0 <;> simp [hm]
     · split <;> simp
+
+/-- **the error marks a position inside the expression** (after the repair of `CommonLex.Error`): for every
+    byte string, every grammar and prefix map, building never hits the out-of-range slice of `CreateProgram`,
+    and the index at which an error splits the expression lies between 0 and its length — the lexer never
+    claims more unread bytes than the expression has (byte accounting through every lexer function: what
+    `next` hands out it has taken off the account, what is put back was handed out just before, a decoded
+    rune re-encodes to at most the bytes it was read from) -/
+theorem C05_error_position_inside (strict : Bool) (g : Grammar) (pm : PfxMap) (bs : List Nat) :
+    (∀ why, build strict true g pm bs ≠ .panic why) ∧
+    (∀ mark kind, build strict true g pm bs = .error mark kind → 0 ≤ mark ∧ mark ≤ bs.length) :=
+  build_mark strict g pm bs
 
 /-- non-vacuity: a tree whose first callback fails makes `evalLocPath` fail with the tree's error -/
 example : (run true { value := fun _ => .emptyNodeset, failAt := 1, derefTarget := id }
